@@ -199,6 +199,17 @@ class UNewMismatch(Exception):
     super().__init__('code %s: %s' % (code, detail))
     self.code = code
 
+class UVarArgs(Exception):
+  # __new__ wants two arguments; what ends up in args depends on the instance
+  def __new__(cls, source, line):
+    return super().__new__(cls, source, line)
+  def __init__(self, source, line):
+    if line is None:
+      super().__init__(source)
+    else:
+      super().__init__(source, line)
+    self.source = source
+
 class URegistry(Exception):
   # keeps a registry of its subclasses and refuses a second one of a name: a
   # proxy SUBCLASS can be made once at most
@@ -259,6 +270,9 @@ USER_CTORS = [
     ('UTypeErrInt', "UTypeErrInt()"),
     ('UNoArgsInit', "UNoArgsInit()"),
     ('UNewMismatch', "UNewMismatch(9, 'nine')"),
+    ('UVarArgs', "UVarArgs('src', 3)"),
+    ('UVarArgs', "UVarArgs('src', None)"),
+    ('UVarArgs', "UVarArgs('src2', 4)"),
     ('UNotFound', "UNotFound('nf')"),
     ('UFinal', "UFinal('final')"),
     ('UGroupDocs', "UGroupDocs([ValueError(1)], 3)"),
